@@ -246,6 +246,13 @@ def ref_sweeten(cls, data, op):
             out[op[1]] = op[2]
             return out
         return data
+    if k == 'set_attr_node':
+        if isinstance(data, dict):
+            from mc import models, refsem
+            out = collections.OrderedDict(data)
+            out[op[1]] = refsem.plain(models.norm_tree(op[2]))
+            return out
+        return data
     if k == 'remove_attr':
         if isinstance(data, dict):
             return collections.OrderedDict((kk, v) for kk, v in data.items() if kk != op[1])
@@ -275,7 +282,7 @@ def snapshot(v, seen=None, depth=0):
     if seen is None:
         seen = {}
     if isinstance(v, (int, float, str, bool, type(None), bytes)) and type(v) in (int, float, str, bool, type(None), bytes):
-        return ('v', type(v).__name__, repr(v))
+        return ('v', type(v).__name__, hex(v) if type(v) is int else repr(v))      # hex(): no digit limit
     if id(v) in seen:
         return ('ref', seen[id(v)])
     seen[id(v)] = len(seen)
